@@ -1436,3 +1436,64 @@ func init() {
 		mvH265SPS = append(mvH265SPS, mvH265WithFlags(base, pat(v.flags), v.rext))
 	}
 }
+
+// AV1 sequence headers WITH a colour description (color_description_present_flag = 1 followed by 3x8 bits) for the
+// `cs` ops: derived from the second header of the list by setting one payload bit and inserting 24 bits after it;
+// the bit is found by search: the rewritten header must parse (mediacommon) with exactly the wanted triple and with
+// every other field equal to the original's.
+func mvAV1WithColor(hdr []byte, cp, tc, mc uint8) []byte {
+	var orig av1.SequenceHeader
+	if err := orig.Unmarshal(hdr); err != nil || orig.ColorConfig.ColorDescriptionPresentFlag {
+		return nil
+	}
+	payload := hdr[1:] // OBU header without size field
+	nbits := len(payload) * 8
+	get := func(b []byte, i int) bool { return b[i/8]&(0x80>>uint(i%8)) != 0 }
+	for p := 0; p < nbits; p++ {
+		if get(payload, p) {
+			continue
+		}
+		var bitsOut []bool
+		for i := 0; i <= p; i++ {
+			bitsOut = append(bitsOut, get(payload, i))
+		}
+		bitsOut[p] = true
+		for _, v := range []uint8{cp, tc, mc} {
+			for k := 7; k >= 0; k-- {
+				bitsOut = append(bitsOut, v&(1<<uint(k)) != 0)
+			}
+		}
+		for i := p + 1; i < nbits; i++ {
+			bitsOut = append(bitsOut, get(payload, i))
+		}
+		out := make([]byte, 1+(len(bitsOut)+7)/8)
+		out[0] = hdr[0]
+		for i, v := range bitsOut {
+			if v {
+				out[1+i/8] |= 0x80 >> uint(i%8)
+			}
+		}
+		var s av1.SequenceHeader
+		if err := s.Unmarshal(out); err != nil {
+			continue
+		}
+		cc, oc := s.ColorConfig, orig.ColorConfig
+		if cc.ColorDescriptionPresentFlag && uint8(cc.ColorPrimaries) == cp && uint8(cc.TransferCharacteristics) == tc &&
+			uint8(cc.MatrixCoefficients) == mc && s.SeqProfile == orig.SeqProfile && s.SeqLevelIdx[0] == orig.SeqLevelIdx[0] &&
+			s.Width() == orig.Width() && s.Height() == orig.Height() && cc.BitDepth == oc.BitDepth && cc.MonoChrome == oc.MonoChrome &&
+			cc.SubsamplingX == oc.SubsamplingX && cc.SubsamplingY == oc.SubsamplingY {
+			return out
+		}
+	}
+	return nil
+}
+
+func init() {
+	for _, t := range [][3]uint8{{9, 16, 9}, {1, 13, 6}, {5, 6, 2}} {
+		if h := mvAV1WithColor(mvAV1SeqHdr[1], t[0], t[1], t[2]); h != nil {
+			mvAV1SeqHdr = append(mvAV1SeqHdr, h)
+		} else {
+			panic("mvgen: no AV1 sequence header with a colour description could be derived")
+		}
+	}
+}
